@@ -12,7 +12,7 @@ import z3
 from . import symx
 from .symx import SymReal, SymBool, lift, zabs, zsign
 
-MARGIN = 1e-3  # robust-negation margin (relative to 1+|a|+|b|)
+MARGIN = 2e-4  # robust-negation margin (relative to 1+|a|+|b|)
 CTOL_R = 1e-7  # concrete-mode equality tolerance
 CTOL_A = 1e-9
 
@@ -94,7 +94,7 @@ def Abs(x):
 def Sign(x):
     if isinstance(x, SymReal):
         return SymReal(zsign(x.t))
-    return (x > 0) - (x < 0)
+    return float(x > 0) - float(x < 0)
 
 
 def Ite(c, a, b):
